@@ -942,8 +942,12 @@ func (c *client) maybeOverrideUnsupportedWriteConsistency(isSelect bool, raw *fr
 // frame, because encoding a whole `frame.Frame` computes a body length that is 16 bytes too long for requests that have
 // the tracing flag set (it accounts for a tracing ID that only responses carry), which corrupts the backend connection.
 func (c *client) overriddenFrame(raw *frame.RawFrame, body *frame.Body) interface{} {
+	// The re-encoded request is sent uncompressed (compression is optional per frame): bodies that don't compress are
+	// turned into LZ4 blocks by the frame codec that cannot be decompressed again.
+	hdr := *raw.Header
+	hdr.Flags = hdr.Flags.Remove(primitive.HeaderFlagCompressed)
 	frm := &frame.Frame{
-		Header: raw.Header,
+		Header: &hdr,
 		Body:   body,
 	}
 	rawFrm, err := c.codec.ConvertToRawFrame(frm)
